@@ -19,7 +19,7 @@ SPEC = dict(
     assumptions=["Python's re parser (re._parser) is trusted to describe what a compiled regex means",
                  "an all-literal pattern with an empty body (only anchors) is outside the domain"],
     required=["k07_structure_checks", "self_match_checks", "near_miss_checks", "rewrite_checks", "grep_cli_checks",
-              "legacy_checks"],
+              "legacy_checks", "config_cli_checks"],
     anchors=[("v2patterns", "_compile_pattern_re"), ("v1patterns", "_compile_pattern_re"),
              ("v2patterns", "_replace_pattern_parts"), ("v2version", "_format_segment")],
     exhaustive={"quick": True, "thorough": True},
@@ -275,6 +275,48 @@ def run_case(ctx, case):
     # CLI sample
     if ctx.rng.random() < (0.02 if len(syms) <= 3 else 0.1) and not mechanisms(syms):
         grep_cli(ctx, syms)
+    # the same pattern configured through setup.cfg / bumpver.toml and used by `update`
+    if not mechanisms(syms) and (ctx.rng.random() < 0.03 or ("%" in syms and ctx.rng.random() < 0.5)):
+        config_cli(ctx, syms)
+
+
+def config_cli(ctx, syms):
+    """The literal text as part of a file pattern in a config file (INI and TOML): `update` rewrites exactly the
+    lines that contain the text."""
+    from bvmon.projects import toml_str
+    pattern = "".join(syms)
+    text = "".join(sym_text(s) for s in syms)
+    if text != text.strip() or not text or text[0] in "#;[" or "=" in text[:1] or text[-1:].isdigit() or syms[0] == "^" \
+            or syms[-1] == "$" or "{" in text or "}" in text:
+        return
+    miss = text[:-1] + ("x" if text[-1] != "x" else "y")
+    if text in miss + " 1.2.3" or text[:1].isdigit():
+        return
+    raw = pattern + " MAJOR.MINOR.PATCH"
+    notes = f"first\n{text} 1.2.3\nmiddle\n{miss} 1.2.3\nlast\n"
+    for fmt in ("cfg", "toml"):
+        if fmt == "toml" and (text[0] in ',"' or "\\" in text):
+            continue   # the third-party `toml` library mis-reads array strings that start with ',' or an escaped quote
+        if fmt == "cfg":
+            cfg = ("[bumpver]\ncurrent_version = 1.2.3\nversion_pattern = MAJOR.MINOR.PATCH\n\n[bumpver:file_patterns]\n"
+                   f"setup.cfg =\n    current_version = {{version}}\nnotes.txt =\n    {raw}\n")
+            files = {"setup.cfg": cfg, "notes.txt": notes}
+        else:
+            cfg = ('[bumpver]\ncurrent_version = "1.2.3"\nversion_pattern = "MAJOR.MINOR.PATCH"\n\n[bumpver.file_patterns]\n'
+                   '"bumpver.toml" = [\'current_version = "{version}"\']\n' + f'"notes.txt" = [{toml_str(raw)}]\n')
+            files = {"bumpver.toml": cfg, "notes.txt": notes}
+        d = harness.new_project(files)
+        try:
+            res = harness.invoke(["update", "--patch", "--no-fetch"], cwd=d)
+            ctx.count("config_cli_checks")
+            got = harness.snapshot(d)["notes.txt"].decode("utf-8")
+            want = f"first\n{text} 1.2.4\nmiddle\n{miss} 1.2.3\nlast\n"
+            if res.crash or res.exit_code != 0 or got != want:
+                ctx.violation("other:pattern_from_config_file_not_literal", f"{fmt} config, file pattern {raw!r}: exit "
+                              f"{res.exit_code} {res.crash or res.errors()[-2:]}; notes.txt = {got!r}, expected {want!r}",
+                              case={"syms": syms})
+        finally:
+            harness.rm_dir(d)
 
 
 def grep_cli(ctx, syms):
